@@ -20,13 +20,13 @@ def isnan(v):
     return isinstance(v, float) and v != v
 
 
-def transform(rng, a, kind):
+def transform(rng, a, kind, target=None):
     """returns (b, ren: {name_in_a: name_in_b}, must: list of names of a that must be returned)"""
     b = copy.deepcopy(a)
     ren = {n: n for n, _ in a["quanti"] + a["quali"]}
     must = []
     if kind in ("negate", "scale") and a["quanti"]:
-        i = rng.randrange(len(a["quanti"]))
+        i = rng.randrange(len(a["quanti"])) if target is None else target
         col = decs(a["quanti"][i][1])
         f = -1 if kind == "negate" else rng.choice([2, 3, 0.5, 10, 7])
         new = [v if isnan(v) else v * f for v in col]
@@ -97,6 +97,19 @@ def gen_pair(rng, kind=None):
     raise RuntimeError("no pair generated")
 
 
+def gen_special_pair(rng, which):
+    """pairs built on the boundary-directed C14 generators"""
+    if which == "iqr":  # screening by iqr_measure must not depend on the sign / scale of the feature
+        a = c14.gen_iqr_case(rng)
+        k = rng.choice(["negate", "negate", "scale"])
+        a2, b, ren, must = transform(rng, a, k, target=0)
+    else:
+        a = c14.gen_two_measure_case(rng) if which == "two" else c14.gen_quali_filter_case(rng)
+        k = rng.choice(["perm_rows", "perm_cols", "rename_feat", "rename_cat" if a["quali"] else "negate"])
+        a2, b, ren, must = transform(rng, a, k)
+    return {"kind": k, "a": a2, "b": b, "ren": ren, "must": must}
+
+
 def type_of(case, name):
     return "float" if name in [n for n, _ in case["quanti"]] else "str"
 
@@ -136,7 +149,10 @@ class C15(Prop):
 
     def generate(self, rng, tier):
         n = 200 if tier == "quick" else 2000
-        return [gen_pair(rng) for _ in range(n)]
+        ns = 1 if tier == "quick" else 8
+        return ([gen_pair(rng) for _ in range(n)] + [gen_special_pair(rng, "iqr") for _ in range(24 * ns)]
+                + [gen_special_pair(rng, "two") for _ in range(8 * ns)]
+                + [gen_special_pair(rng, "filter") for _ in range(8 * ns)])
 
     def search_cases(self, rng, neighbours, rnd):
         return [gen_pair(rng) for _ in range(100)]
@@ -167,16 +183,22 @@ class C15(Prop):
                 continue
             t = ta.get(d)
             ok = False
-            if t is not None and not t["ms"]:
-                ok = True  # no measure requested for this type: nothing can be returned
+            assoc = [j for j, k in enumerate(t["ms"]) if k not in c14.GATES] if t is not None else []
+            if t is not None and not assoc:
+                ok = True  # no association measure requested for this type: nothing can be returned
             elif t is not None:
                 row = {r["name"]: r for r in t["rows"]}
                 r = row[f]
-                s = r["spec"][-1]
-                if not c14.Fr(r["cnt_nan"], t["n"]) < t["tnan"] or not c14.Fr(r["cnt_mode"], t["n"]) < t["tmode"]:
+                last = assoc[-1]
+                s = r["spec"][last]
+                if any(k in c14.GATES and r["raw"][j]["key"] is not None and not r["raw"][j]["key"] < t["mthr"][j]
+                       for j, k in enumerate(t["ms"])):
+                    ok = True  # screened out by an outlier gate
+                elif not c14.Fr(r["cnt_nan"], t["n"]) < t["tnan"] or not c14.Fr(r["cnt_mode"], t["n"]) < t["tmode"]:
                     ok = True  # fails thresh_nan / thresh_mode
                 elif s is not None:
-                    better = [g for g in sel if g in row and row[g]["spec"][-1] is not None and row[g]["spec"][-1] >= s]
+                    better = [g for g in sel if g in row and row[g]["spec"][last] is not None
+                              and row[g]["spec"][last] >= s]
                     ok = (len(better) >= t["n_best"]
                           or any(flt["mat"][(f, g)] >= flt["thresh"] for flt in t["filters"] for g in better))
             if not ok:
